@@ -46,11 +46,11 @@ def echo_app(calls, fails):
     return app
 
 
-def serve_stream(kind, data, cuts, fault="none", fault_at=0, send_errno=errno.EPIPE):
+def serve_stream(kind, data, cuts, fault="none", fault_at=0, send_errno=errno.EPIPE, cfgkw=None):
     """-> (events, info)"""
     calls, fails = [], []
     app = echo_app(calls, fails)
-    cfg = drv.make_cfg(keepalive=2)
+    cfg = drv.make_cfg(keepalive=2, **(cfgkw or {}))
     w = drv.make_worker(kind, cfg, app)
     segs = hp.drv.segments(data, cuts)
     kw = {}
@@ -183,12 +183,12 @@ def c05(ctx):
     ctx.coverage["exhaustive"] = True
     traces, metas = [], []
 
-    def add(kind, data, cuts, fault="none", fault_at=0, ms=None, cut=0, src="", send_errno=errno.EPIPE):
-        ev, info = serve_stream(kind, data, cuts, fault, fault_at, send_errno)
+    def add(kind, data, cuts, fault="none", fault_at=0, ms=None, cut=0, src="", send_errno=errno.EPIPE, cfgkw=None):
+        ev, info = serve_stream(kind, data, cuts, fault, fault_at, send_errno, cfgkw)
         traces.append({"ms": ms or [], "cut": cut, "oracle": 1 if ms else 0,
                        "fault": "send" if fault == "send" else "recv" if fault.startswith("recv") else "none", "ev": ev})
         metas.append({"kind": kind, "bytes": data[:300].decode("latin-1"), "cuts": cuts[:10], "fault": fault,
-                      "fault_at": fault_at, "src": src, "escaped": info["escaped"], "wire": info["wire"]})
+                      "fault_at": fault_at, "src": src, "escaped": info["escaped"], "wire": info["wire"], "cfgkw": cfgkw})
 
     # 1. grammar streams with the strict oracle (rejected heads, bad chunked bodies, truncation at every offset)
     fams = ["heads1", "chunks", "trunc"] + ([] if ctx.quick else ["heads2", "pipeline"])
@@ -233,7 +233,23 @@ def c05(ctx):
         elif x < 0.3:
             fault, at = "send", rng.randint(0, 200)
         add(rng.choice(KINDS), data, hp.rand_cuts(rng, len(data)) if len(data) > 1 else [], fault=fault, fault_at=at, src="mutated")
-    # 5. real processes: the keep-alive wait of the async / threaded workers (timers cannot be scripted in-process)
+    # 5. PROXY protocol switched on: peers that may / may not send a PROXY line, good and bad lines, truncation
+    plines = [b"PROXY TCP4 1.2.3.4 5.6.7.8 1111 80\r\n", b"PROXY TCP6 ::1 ::2 1111 80\r\n", b"PROXY UNKNOWN\r\n",
+              b"PROXY TCP4 1.2.3.4 5.6.7.8 1111\r\n", b"PROXY TCP4 999.2.3.4 5.6.7.8 1111 80\r\n", b"PROXY TCP4 1.2.3.4 5.6.7.8 x 80\r\n",
+              b"PROXY TCP9 1.2.3.4 5.6.7.8 1111 80\r\n", b"PROXY {0} %s %(x)s\r\n", b"PROXY TCP4 1.2.3.4 5.6.7.8 1111 70000\r\n", b"PROXY \r\n",
+              b"PROXY TCP4 1.2.3.4 5.6.7.8 1111 80\n", b""]
+    for pl in plines:
+        for allow in ("*", "127.0.0.1", "10.9.8.7", "10.0.0.1,10.9.8.7"):
+            for kind in KINDS:
+                for base in (VALID[0], VALID[1], VALID[0] + pl + VALID[0]):
+                    data = pl + base
+                    if ctx.quick and rng.random() < 0.5:
+                        continue
+                    add(kind, data, hp.rand_cuts(rng, len(data)), src="proxy", cfgkw={"proxy_protocol": True, "proxy_allow_ips": allow})
+                    k = rng.randrange(len(data) + 1)
+                    add(kind, data[:k], [], fault=rng.choice(["none", "recv_eofreset"]), src="proxy-truncated",
+                        cfgkw={"proxy_protocol": True, "proxy_allow_ips": allow})
+    # 6. real processes: the keep-alive wait of the async / threaded workers (timers cannot be scripted in-process)
     from props.reload_real import _parallel
     plan = [("gevent", b""), ("gevent", b"GET /second HTT"), ("gthread", b"GET /second HTT")] if ctx.quick else \
         [(wk, tail) for wk in ("gevent", "eventlet", "gthread") for tail in (b"", b"GET /second HTT", b"GET /s HTTP/1.1\r\nHost")]
@@ -259,7 +275,7 @@ def c05(ctx):
 def replay(ctx, data):
     m = data["case"]["meta"]
     t = data["case"]["trace"]
-    ev, info = serve_stream(m["kind"], m["bytes"].encode("latin-1"), m["cuts"], m["fault"], m["fault_at"])
+    ev, info = serve_stream(m["kind"], m["bytes"].encode("latin-1"), m["cuts"], m["fault"], m["fault_at"], cfgkw=m.get("cfgkw"))
     print("events:", ev, info)
     t = dict(t, ev=ev)
     verdicts, _ = tlc.validate_batch("ConnTrace", "ConnTrace.cfg", [t], name="ConnTrace_replay")
